@@ -322,6 +322,7 @@ func evalB(pool map[string]object.PanObject, c BCase) interp.Outcome {
 		}
 		node = pc
 	}
+	interp.Label.Store(c.text())
 	o := in.EvalNode(node, interp.Opts{Env: env, Budget: budget})
 	if c.Consum == "" || o.Kind != interp.Value {
 		return o
@@ -329,8 +330,15 @@ func evalB(pool map[string]object.PanObject, c BCase) interp.Outcome {
 	if sig, _ := classify(o); sig != "" {
 		return o
 	}
+	if interp.TooLargeToPrint(o.Obj) {
+		// a value that shares sub-structures exponentially: rendering it (error messages do) is the program's own
+		// unbounded work in host code that the budget cannot interrupt; it is not consumed further
+		vt.Discard("result too large to print: not consumed further")
+		return o
+	}
 	interp.Bind(env, "res", o.Obj)
-	return in.Run(c.Consum, interp.Opts{Env: env, Budget: budget})
+	interp.Label.Store(c.text())
+	return in.Run(c.Consum, interp.Opts{Env: env, Budget: budget, KeepLabel: true})
 }
 
 func judgeB(t vt.Failer, pool map[string]object.PanObject, c BCase, fatal bool) interp.Outcome {
